@@ -25,8 +25,16 @@ Pipeline (DESIGN.md 7-C08, notes/CONVENTIONS.md):
      decision left behind in N still shows up.  If such a lemma already propagated in F a literal that N decided later,
      F has one level less: lvl / dec are then left out of the (one-sided) comparison; a decision of N that F REFUTES by
      propagation is reported (net:decision-refuted-by-fresh-network).
-     All infinite RDL values are identified for this comparison (norm_inf: defect reported by C10, its raw effect is
-     reported under its own signature, listed in notes/fixes/C08-pending.json).
+     THE KNOWN FINDING.  When a one-sided point agrees but F has literals assigned that N leaves Undefined, the
+     difference is accepted as the known finding "theory propagation depends on the simplex basis" ONLY IF it is proved
+     to be exactly that (explain_lra_basis): every extra literal of F is either (root) the relation literal of an LRA
+     atom that F derived by a kind-2 lemma made of LRA atoms only, unit under F's assignment and valid (refuted by a
+     pristine network), or a consequence of the roots: a copy of N (same script) in which the roots are assumed on top
+     must end up with EXACTLY F's literal values, LRA bounds, IDL / RDL matrices and OV domains (alternating a few
+     rounds when the copy itself derives new valid LRA lemmas).  Anything left over - in particular any IDL / RDL
+     distance, OV domain, LRA bound or non-LRA literal not reproduced that way - is a violation with its own signature
+     (net:history-dependence:rdl-distance, :idl-distance, :lra-bound, :ov-domain, :literal, :levels).  Whether the two
+     tableaux have different bases is recorded in the evidence.
   4. direct forms, evaluated on N alone at every command:
         (i)  assume p ; ... ; pop   with no hook call in between  => obs after the pop == obs before the assume
              (nested: every level has its own saved obs), check(lits) / propagate with no hook call => obs unchanged;
@@ -45,7 +53,6 @@ Pipeline (DESIGN.md 7-C08, notes/CONVENTIONS.md):
 import glob
 import json
 import os
-import re
 import time
 from fractions import Fraction
 
@@ -56,7 +63,6 @@ import net_gen
 LEVEL = "proof"
 CORPUS = os.path.join(vlib.VERIF, "corpus", "C08")
 LRA_BASIS_SIG = "net:history-dependence:lit:theory-propagation-depends-on-simplex-basis"
-PENDING = os.path.join(vlib.VERIF, "notes", "fixes", "C08-pending.json")
 SEP = "== history"
 
 
@@ -120,8 +126,13 @@ class Crash(Exception):
 # ------------------------------------------------------------------------------------------------
 # obs parsing / comparison
 # ------------------------------------------------------------------------------------------------
-SECTION_OF = {"vals": "lit", "lra": "lra", "lat": "lra", "idl": "idl", "rdl": "rdl", "ov": "ov", "lvl": "lit", "dec": "lit"}
-ORDER = ["lit", "lra", "idl", "rdl", "ov"]
+SECTION_OF = {"vals": "lit", "lra": "lra", "lat": "lra", "idl": "idl", "rdl": "rdl", "ov": "ov", "lvl": "lev", "dec": "lev"}
+ORDER = ["rdl", "idl", "ov", "lra", "lit", "lev"]       # the most specific observable names the signature
+SIG_NAME = {"rdl": "rdl-distance", "idl": "idl-distance", "ov": "ov-domain", "lra": "lra-bound", "lit": "literal", "lev": "levels"}
+
+
+def what_differs(d):
+    return SIG_NAME[[s for s in ORDER if any(x[0] == s for x in d)][0]]
 
 
 def obs_fields(line):
@@ -141,8 +152,11 @@ def p_rat(s):
 
 
 def p_irat(s):
+    """inf_rational for the ONE-SIDED (interval inclusion) comparison: an infinite value is infinite whatever its infinitesimal
+    part (bounds(lin) of an expression with an unbounded variable and a strictly bounded one prints +inf - epsilon)"""
     a, b = s.split(",")
-    return p_rat(a) + p_rat(b)
+    ra = p_rat(a)
+    return ra + ((0, Fraction(0)) if ra[0] else p_rat(b))
 
 
 def p_int(s):
@@ -180,7 +194,7 @@ def diff_obs(on, of):
     out = []
     for k in ("lvl", "dec"):
         if a.get(k) != b.get(k):
-            out.append(("lit", k, b.get(k), a.get(k)))
+            out.append(("lev", k, b.get(k), a.get(k)))
     va, vb = a.get("vals", ""), b.get("vals", "")
     if va != vb:
         if len(va) != len(vb):
@@ -202,7 +216,7 @@ def onesided_violations(on, of):
     Returns the list of (section, item, fresh, network) where N claims something F does not have."""
     out = []
     for sec, name, fv, nv in diff_obs(on, of):
-        if sec == "lit":
+        if sec in ("lit", "lev"):
             if name.startswith("b") and nv == "U":
                 continue
             out.append((sec, name, fv, nv))
@@ -224,18 +238,6 @@ def onesided_violations(on, of):
     return out
 
 
-INF_EPS = re.compile(r"(-?1/0),-?[0-9]+/[0-9]+")
-RDL_INF_SIG = "net:history-dependence:rdl:infinite-distance-with-infinitesimal"
-
-
-def norm_inf(line):
-    """rdl_theory::propagate compares +inf with +inf - dist by the infinitesimal part (defect reported by C10, repair pending in
-    notes/fixes/C10-rdl-infinite-plus-epsilon.patch): unrelated infinite cells become +inf -/+ k*epsilon in an order dependent
-    way.  The main comparison identifies all the infinities of one sign; the raw difference is reported under its own
-    signature (RDL_INF_SIG)."""
-    return INF_EPS.sub(r"\1,0/1", line)
-
-
 def strip_levels(line):
     t = line.split(" ")
     return " ".join(x for x in t if not (x.startswith("lvl=") or x.startswith("dec=")))
@@ -250,16 +252,26 @@ def numeric_part(line):
 # running a case on N
 # ------------------------------------------------------------------------------------------------
 class Run:
-    """cons, hist + what N answered: cons_ans, obs0 (after the construction), ans[i], obs[i] (after hist[i])."""
+    """cons, hist + what N answered: cons_ans, obs0 (after the construction), kinds (owner theory of every propositional variable),
+    ans[i], obs[i], mus[i] (after hist[i]).  The line sequence N was fed is exactly script_lines(cons, hist)."""
 
-    def __init__(self, cons, hist, cons_ans, obs0, ans, obs, origin=""):
-        self.cons, self.hist, self.cons_ans, self.obs0, self.ans, self.obs, self.origin = cons, hist, cons_ans, obs0, ans, obs, origin
+    def __init__(self, cons, hist, cons_ans, obs0, kinds, ans, obs, mus, origin=""):
+        self.cons, self.hist, self.cons_ans, self.obs0, self.ans, self.obs, self.mus, self.origin = cons, hist, cons_ans, obs0, ans, obs, mus, origin
+        self.kinds = kinds.split(" ", 1)[1] if " " in kinds else ""
+
+
+def script_lines(cons, hist):
+    lines = list(cons) + ["obs", "kinds"]
+    for c in hist:
+        lines += [c, "obs", "mu"]
+    return lines
 
 
 def run_case(h, cons, hist, origin=""):
-    lines = list(cons) + ["obs"]
-    for c in hist:
-        lines += [c, "obs"]
+    """A NEW process per case: lra_theory keeps rows in unordered_set<row *>, the pivots depend on heap addresses; with ASLR
+    off a process is a function of the lines it is fed, so that the same lines give the same network again (explain_lra_basis)."""
+    lines = script_lines(cons, hist)
+    h.start()
     try:
         out = h.batch(lines)
     except EOFError:
@@ -274,7 +286,7 @@ def run_case(h, cons, hist, origin=""):
             rc, hung = h.last_rc, hung or h.last_hung
         raise Crash(done, rc, hung)
     nc = len(cons)
-    return Run(list(cons), list(hist), out[:nc], out[nc], out[nc + 1::2], out[nc + 2::2], origin)
+    return Run(list(cons), list(hist), out[:nc], out[nc], out[nc + 1], out[nc + 2::3], out[nc + 3::3], out[nc + 4::3], origin)
 
 
 def hooks_of(ans):
@@ -287,9 +299,10 @@ def norm_hooks(ans):
     return ans if i < 0 else ans[:i + 7] + "|".join(sorted(ans[i + 7:].split("|")))
 
 
-def fresh_script(run, upto):
+def fresh_script(run, upto, more=()):
     """The script of the fresh network for the comparison point after hist[upto] (upto = -1: after the construction).
-    Returns (lines, n_prefix, decisions)."""
+    more: further clauses (literal lists) to be added with the recorded ones.
+    Returns (lines, n_prefix, decisions, n_recorded_clauses); the last two lines are "obs" and "basis"."""
     learnt, extra = [], []
     for a in run.cons_ans:
         for k, ls in hooks_of(a):
@@ -304,8 +317,9 @@ def fresh_script(run, upto):
                 learnt.append(ls)
     st = net_gen.parse(run.ans[upto]) if upto >= 0 else net_gen.parse(run.cons_ans[-1])
     dec = sat_lib.ints(st.get("dec", ""))
+    learnt += [list(ls) for ls in more]
     pre = list(run.cons) + extra + ["c " + " ".join(map(str, ls)) for ls in learnt] + ["p"]
-    return pre + ["a %d" % d for d in dec] + ["obs"], len(pre), dec, len(learnt)
+    return pre + ["a %d" % d for d in dec] + ["obs", "basis"], len(pre), dec, len(learnt)
 
 
 class Stats:
@@ -323,14 +337,16 @@ class Stats:
         self.ops = {}
         self.depth = {}
         self.hooks = {0: 0, 1: 0, 2: 0, 3: 0, 4: 0}
-        self.multi_pops = [0, 0, 0]
         self.pops = 0
         self.cases = 0
         self.dead_cases = 0
         self.skips = 0
         self.max_depth = 0
         self.learnt_at_points = 0
-        self.inf_eps = 0
+        self.basis = dict(explained=0, bases_differ=0, bases_equal=0, rounds={}, roots=0, downstream_literals=0, downstream_numeric=0,
+                          unexplained=0)
+        self.multi = {}            # theory -> {category: undone levels in which one bound / cell / domain had been updated >= 2 times}
+        self.mu_void = 0
         self.levels_merged = 0
         self.fresh_knows_more = 0
         self.lemmas_checked = 0
@@ -340,13 +356,16 @@ class Stats:
         d[k] = d.get(k, 0) + n
 
 
-def compare_point(run, upto, F, stats):
-    """Compares N after hist[upto] with the fresh network.  Returns None (agree / incomparable) or a problem dict."""
-    lines, npre, dec, nlearnt = fresh_script(run, upto)
+def fresh_eval(run, upto, F, stats, more=(), count=True):
+    """Runs the fresh network of the comparison point.  Returns (problem, None) / (None, None) when incomparable, else
+    (None, dict(of, basis, out, lines, dec, nlearnt, nskip, fresh_learnt))."""
+    lines, npre, dec, nlearnt = fresh_script(run, upto, more)
     out = F.batch(lines)
-    on = run.obs[upto] if upto >= 0 else run.obs0
-    of = out[-1]
     nc = len(run.cons)
+
+    def inc(k):
+        if count:
+            stats.inc(stats.incomparable, k)
     if out[:nc] != run.cons_ans:
         # ov_theory::new_eq walks an unordered_map keyed by var_value POINTERS: the order in which its clauses reach new_clause
         # (the order of the kind-4 hooks) differs from process to process; everything else must be identical
@@ -354,13 +373,13 @@ def compare_point(run, upto, F, stats):
         if bad:
             k = bad[0]
             return dict(sig="net:construction-not-deterministic", corr=True, at=upto,
-                        diff=[("cons", run.cons[k], out[k], run.cons_ans[k])])
+                        diff=[("cons", run.cons[k], out[k], run.cons_ans[k])]), None
     fresh_learnt = False
     for j in range(nc, npre):
         a = out[j]
         if a.startswith("rc=0") or " dead=1" in a:
-            stats.inc(stats.incomparable, "fresh-root-conflict")
-            return None
+            inc("fresh-root-conflict")
+            return None, None
         if j >= npre - 1 - nlearnt:     # the recorded clauses and the propagate: F finds something new at root
             for k, ls in hooks_of(a):
                 if k in (0, 2, 3):
@@ -374,62 +393,183 @@ def compare_point(run, upto, F, stats):
             # the decision is already assigned in F (F found a theory lemma N did not find and propagated it earlier)
             v = st["vals"][d >> 1]
             if v == "U" or not fresh_learnt:
-                stats.inc(stats.incomparable, "decision-skipped-in-fresh")
-                return None
+                inc("decision-skipped-in-fresh")
+                return None, None
             if (v == "T") != bool(d & 1):
                 # F refutes by propagation a decision N took without a conflict: compare nothing, but never silently
-                stats.inc(stats.incomparable, "decision-refuted-in-fresh")
+                inc("decision-refuted-in-fresh")
                 return dict(sig="net:decision-refuted-by-fresh-network", at=upto, mode="one-sided", diff=[("lit", "decision %d" % d, "F", "T")],
-                            fresh_script=lines, fresh_obs=of, net_obs=on, decisions=dec)
+                            fresh_script=lines, fresh_obs=out[-2], net_obs=run.obs[upto] if upto >= 0 else run.obs0, decisions=dec), None
             nskip += 1          # same value: F simply has no level for it; one-sided comparison without lvl / dec
             continue
         if rc != "1":
-            stats.inc(stats.incomparable, "decision-false-in-fresh")
-            return None
+            inc("decision-false-in-fresh")
+            return None, None
         if int(st["lvl"]) != i + 1 - nskip:
-            stats.inc(stats.incomparable, "fresh-backjump")
-            return None
+            inc("fresh-backjump")
+            return None, None
         for k, ls in hooks_of(a):
             if k in (0, 3):
-                stats.inc(stats.incomparable, "fresh-conflict-same-level")
-                return None
+                inc("fresh-conflict-same-level")
+                return None, None
             if k == 2:
                 fresh_learnt = True
+    return None, dict(of=out[-2], basis=out[-1], out=out, lines=lines, dec=dec, nlearnt=nlearnt, nskip=nskip, fresh_learnt=fresh_learnt, npre=npre)
+
+
+def compare_point(run, upto, F, stats, C=None):
+    """Compares N after hist[upto] with the fresh network.  Returns None (agree / incomparable) or a problem dict."""
+    prob, fr = fresh_eval(run, upto, F, stats)
+    if fr is None:
+        return prob
+    on = run.obs[upto] if upto >= 0 else run.obs0
+    of, lines, dec = fr["of"], fr["lines"], fr["dec"]
     stats.points += 1
-    stats.learnt_at_points += nlearnt
+    stats.learnt_at_points += fr["nlearnt"]
     if not dec:
         stats.root_points += 1
     if numeric_part(on) != numeric_part(run.obs0):
         stats.nontrivial += 1
-    raw_on, raw_of = on, of
-    on, of = norm_inf(on), norm_inf(of)
-    if nskip:
+    if fr["nskip"]:
         stats.levels_merged += 1
         on, of = strip_levels(on), strip_levels(of)
-    if fresh_learnt:
+    if fr["fresh_learnt"]:
         stats.onesided += 1
         d = onesided_violations(on, of)
         mode = "one-sided"
-        if obs_fields(on).get("vals") != obs_fields(of).get("vals"):
-            stats.fresh_knows_more += 1
     else:
         stats.exact += 1
         d = diff_obs(on, of) if on != of else []
         mode = "exact"
-    if not d:
+    if d:
+        return dict(sig="net:history-dependence:" + what_differs(d), at=upto, mode=mode, diff=d, fresh_script=lines, fresh_obs=of, net_obs=on,
+                    decisions=dec)
+    if on == of:
         stats.agreed += 1
-        if fresh_learnt and obs_fields(on).get("vals") != obs_fields(of).get("vals"):
-            # the fresh network derived (through a theory lemma) a literal that the network with the undone decisions leaves
-            # Undefined: which literals lra_theory propagates depends on the simplex basis, and pop does not undo pivots
-            return dict(sig=LRA_BASIS_SIG, at=upto, mode="one-sided (fresh network has more literals assigned)",
-                        diff=diff_obs(on, of), fresh_script=lines, fresh_obs=of, net_obs=on, decisions=dec)
-        if raw_on != raw_of and not fresh_learnt:
-            stats.inf_eps += 1
-            return dict(sig=RDL_INF_SIG, at=upto, mode="exact (raw)", diff=diff_obs(raw_on, raw_of), fresh_script=lines, fresh_obs=raw_of,
-                        net_obs=raw_on, decisions=dec)
         return None
-    what = [s for s in ORDER if any(x[0] == s for x in d)][0]
-    return dict(sig="net:history-dependence:" + what, at=upto, mode=mode, diff=d, fresh_script=lines, fresh_obs=of, net_obs=on, decisions=dec)
+    # one-sided, nothing N claims is missing in F, but F knows more: accepted ONLY as the known finding, and only when proved
+    stats.fresh_knows_more += 1
+    why, left = explain_lra_basis(run, upto, F, C or F, fr, on, of, stats)
+    if why is None:
+        stats.agreed += 1
+        return dict(sig=LRA_BASIS_SIG, at=upto, mode="one-sided (fresh network has more literals assigned; explained by valid LRA lemmas)",
+                    diff=diff_obs(on, of), fresh_script=lines, fresh_obs=of, net_obs=on, decisions=dec)
+    stats.basis["unexplained"] += 1
+    return dict(sig="net:history-dependence:" + what_differs(left) + ":fresh-network-knows-more", at=upto,
+                mode="one-sided; NOT explained by LRA lemmas of the fresh network: " + why,
+                diff=left, fresh_script=lines, fresh_obs=of, net_obs=on, decisions=dec)
+
+
+def lit_val(vals, l):
+    v = vals[l >> 1]
+    return "U" if v == "U" else ("T" if (v == "T") == bool(l & 1) else "F")
+
+
+def valid_on_pristine(run, F, clauses):
+    """clause -> True when a pristine network (construction only) refutes its negation"""
+    res = {}
+    todo = [ls for ls in clauses if tuple(ls) not in res]
+    if not todo:
+        return res
+    lines, nc = [], len(run.cons)
+    for ls in todo:
+        lines += list(run.cons) + ["k " + " ".join(str(l ^ 1) for l in ls if l > 1)]
+    out = F.batch(lines)
+    for j, ls in enumerate(todo):
+        res[tuple(ls)] = out[(nc + 1) * j + nc].startswith("rc=0") and 0 not in ls
+    return res
+
+
+def explain_lra_basis(run, upto, F, C, fr, on, of, stats, max_rounds=4):
+    """Is `F knows more than N` exactly the known finding?  Returns (None, None) when it is, else (reason, differences left).
+
+    roots     = literals Undefined in N, assigned in F, owned by an LRA atom, for which F recorded (kind 2) a lemma made of LRA
+                relation literals only that contains the literal and whose other literals are all false in F, the lemma being
+                valid (a pristine network refutes its negation);
+    completion: a copy of N (the very lines N was fed, in a new process: same network) in which the roots are then assumed must
+                show exactly F's observable state (literal values, LRA bounds, IDL / RDL matrices, OV domains; not the levels).
+                If the copy derives LRA lemmas of its own (valid, LRA only) F gets them as clauses; if F still knows more, further
+                roots are looked for; at most max_rounds rounds."""
+    kinds = run.kinds
+    nc = len(run.cons)
+    base = script_lines(run.cons, run.hist[:upto + 1])
+    roots, more = [], []
+    b = stats.basis
+
+    def is_lra(ls):
+        return all(l > 1 and (l >> 1) < len(kinds) and kinds[l >> 1] == "l" for l in ls)
+
+    def find_roots(on_c, of_c, out_f):
+        va, vb = obs_fields(on_c)["vals"], obs_fields(of_c)["vals"]
+        lemmas = [ls for a in out_f[nc:] for k, ls in hooks_of(a) if k == 2 and is_lra(ls)]
+        cand = []
+        for i in range(min(len(va), len(vb))):
+            if va[i] == "U" and vb[i] != "U" and i < len(kinds) and kinds[i] == "l":
+                t = 2 * i + (1 if vb[i] == "T" else 0)
+                for ls in lemmas:
+                    if t in ls and all(lit_val(vb, l) == "F" for l in ls if l != t):
+                        cand.append((t, ls))
+                        break
+        ok = valid_on_pristine(run, F, [ls for _, ls in cand])
+        return [(t, ls) for t, ls in cand if ok.get(tuple(ls))]
+
+    cur_of, cur_out, cur_basis = of, fr["out"], fr["basis"]
+    new = find_roots(on, of, cur_out)
+    if not new:
+        return "no literal the fresh network has in addition is justified by a valid lemma over LRA atoms", diff_obs(on, of)
+    roots += new
+    left = diff_obs(on, of)
+    for rnd in range(1, max_rounds + 1):
+        C.start()
+        outc = C.batch(base + ["obs", "basis"] + ["a %d" % t for t, _ in roots] + ["obs"])
+        nb = len(base)
+        if outc[nb] != (run.obs[upto] if upto >= 0 else run.obs0):
+            return "the network is not reproduced by the lines it was fed (not deterministic)", diff_obs(outc[nb], run.obs[upto] if upto >= 0 else run.obs0)
+        n_basis = outc[nb + 1]
+        own = []
+        for j, (t, _) in enumerate(roots):
+            a = outc[nb + 2 + j]
+            st = net_gen.parse(a)
+            if st.get("rc") == "skip":
+                if lit_val(st.get("vals", ""), t) != "T":
+                    return "a justified literal of the fresh network is false in the network with the undone decisions", left
+                continue
+            if st.get("rc") != "1" or any(k in (0, 3) for k, _ in hooks_of(a)):
+                return "assuming the justified literals in the network with the undone decisions runs into a conflict", left
+            own += [ls for k, ls in hooks_of(a) if k == 2]
+        on_c, of_c = strip_levels(outc[-1]), strip_levels(cur_of)
+        if on_c == of_c:
+            b["explained"] += 1
+            b["bases_differ" if n_basis != cur_basis else "bases_equal"] += 1
+            stats.inc(b["rounds"], rnd)
+            b["roots"] += len(roots)
+            first = diff_obs(on, of)
+            b["downstream_literals"] += sum(1 for x in first if x[0] == "lit") - len(roots)
+            b["downstream_numeric"] += sum(1 for x in first if x[0] not in ("lit", "lev"))
+            return None, None
+        left = diff_obs(on_c, of_c)
+        progress = False
+        if onesided_violations(on_c, of_c):
+            # the copy knows things F does not: only acceptable through valid LRA lemmas the copy derived itself
+            own = [ls for ls in own if is_lra(ls)]
+            ok = valid_on_pristine(run, F, own)
+            own = [ls for ls in own if ok.get(tuple(ls)) and list(ls) not in more]
+            if not own:
+                return "after assuming the justified literals the network with the undone decisions claims what the fresh one does not", left
+            more += [list(ls) for ls in own]
+            prob, fr2 = fresh_eval(run, upto, F, stats, more=more, count=False)
+            if fr2 is None:
+                return "the fresh network given the lemmas of the completed network is not comparable", left
+            cur_of, cur_out, cur_basis = fr2["of"], fr2["out"], fr2["basis"]
+            of_c = strip_levels(cur_of)
+            progress = True
+        new = [r for r in find_roots(on_c, of_c, cur_out) if r[0] not in [t for t, _ in roots]]
+        if new:
+            roots += new
+            progress = True
+        if not progress:
+            return "differences are left after assuming every justified LRA literal", left
+    return "not settled within %d rounds" % max_rounds, left
 
 
 def direct_checks(run, stats, count=True):
@@ -465,8 +605,7 @@ def direct_checks(run, stats, count=True):
                         stats.direct_pop += 1
                     if run.obs[i] != saved:
                         d = diff_obs(run.obs[i], saved)
-                        what = [s for s in ORDER if any(x[0] == s for x in d)][0]
-                        probs.append(dict(sig="net:pop-does-not-restore:" + what, at=i, diff=d, net_obs=run.obs[i], expected_obs=saved))
+                        probs.append(dict(sig="net:pop-does-not-restore:" + what_differs(d), at=i, diff=d, net_obs=run.obs[i], expected_obs=saved))
             del stack[l1:]
         elif op in ("k", "p"):
             if not hk and prev.get("q") == "0":
@@ -474,8 +613,7 @@ def direct_checks(run, stats, count=True):
                     stats.direct_nohook += 1
                 if run.obs[i] != prev_obs:
                     d = diff_obs(run.obs[i], prev_obs)
-                    what = [s for s in ORDER if any(x[0] == s for x in d)][0]
-                    probs.append(dict(sig="net:%s-without-hook-changes-state:%s" % ("check" if op == "k" else "propagate", what), at=i, diff=d,
+                    probs.append(dict(sig="net:%s-without-hook-changes-state:%s" % ("check" if op == "k" else "propagate", what_differs(d)), at=i, diff=d,
                                       net_obs=run.obs[i], expected_obs=prev_obs))
             del stack[l1:]
         else:
@@ -532,9 +670,49 @@ def eligible(run, i):
     return "lvl" in st and st.get("q") == "0" and st.get("dead") == "0"
 
 
-def analyse(run, F, stats, rng=None, sample=1.0, only_last=False, count=True):
+def mu_fields(line):
+    d = obs_fields(line)
+    out = dict(n=int(d.get("n", 0)), chk=d.get("chk", "1") == "1")
+    for th in ("lra", "idl", "rdl", "ov"):
+        out[th] = [tuple(int(x) for x in lv.split("/")) for lv in d.get(th, "").split(",") if lv]
+    return out
+
+
+def undone_levels(run):
+    """For every history command: the decision levels it undid and how: [(i, level, 'pop' | 'next' | 'backjump', mu before)]"""
+    out = []
+    prev = mu_fields("mu n=0 chk=1")
+    for i, (cmd, a) in enumerate(zip(run.hist, run.ans)):
+        st = net_gen.parse(a)
+        mu = mu_fields(run.mus[i]) if i < len(run.mus) else prev
+        if st.get("rc") != "skip" and "lvl" in st:
+            op, l0, l1 = cmd.split(" ")[0], prev["n"], int(st["lvl"])
+            if op == "o":
+                out += [(i, k, "pop", prev) for k in range(l1 + 1, l0 + 1)]
+            elif op == "n":
+                if l0 > 0:
+                    out.append((i, l0, "next", prev))
+                    out += [(i, k, "backjump", prev) for k in range(l1 + 1, l0)]
+            else:
+                out += [(i, k, "backjump", prev) for k in range(l1 + 1, l0 + 1)]
+        prev = mu
+    return out
+
+
+def mu_checks(run):
+    """chk=0: the cells saved in the undo layers of the difference logics are not the values the cells had at the beginning of
+    the level (the replay of the level's constraint literals on the reconstructed matrix does not give the next matrix)."""
+    for i, m in enumerate(run.mus):
+        if " chk=0" in m:
+            return [dict(sig="net:undo-layers-do-not-replay", at=i, mode="replay of the level's constraints on the matrix rebuilt from the undo layers",
+                         diff=[("mu", "chk", "1", "0")], net_obs=run.obs[i], corr=False)]
+    return []
+
+
+def analyse(run, F, stats, rng=None, sample=1.0, only_last=False, count=True, C=None):
     """All the problems of one run (list of dicts, first occurrence of each signature)."""
     probs = direct_checks(run, stats, count)
+    probs += mu_checks(run)
     probs += lemma_checks(run, F, stats, only_last, count)
     if only_last:
         idx = [len(run.hist) - 1] if run.hist else [-1]
@@ -554,7 +732,7 @@ def analyse(run, F, stats, rng=None, sample=1.0, only_last=False, count=True):
             if st["lvl"] != "0" and rng.random() >= sample:     # root points are always compared
                 stats.skipped_sampling += 1
                 continue
-        p = compare_point(run, i, F, stats)
+        p = compare_point(run, i, F, stats, C)
         if p and p["sig"] not in seen:
             seen.add(p["sig"])
             probs.append(p)
@@ -576,11 +754,22 @@ def account(run, stats):
             depth = max(depth, int(st["lvl"]))
         for k, ls in hooks_of(a):
             stats.hooks[k] = stats.hooks.get(k, 0) + 1
-        if op in ("o", "n") and "multi" in st:
+        if op in ("o", "n"):
             stats.pops += 1
-            m = sat_lib.ints(st["multi"])
-            for j in range(3):
-                stats.multi_pops[j] += 1 if m[j] > 0 else 0
+    for i, k, how, mu in undone_levels(run):
+        if not mu["chk"]:
+            stats.mu_void += 1
+            continue
+        for th in ("lra", "idl", "rdl", "ov"):
+            if k - 1 < len(mu[th]):
+                m, o, pth = mu[th][k - 1]
+                d = stats.multi.setdefault(th, {})
+                if m:
+                    stats.inc(d, how)
+                if o:
+                    stats.inc(d, "over_an_older_finite_value:" + how)
+                if pth:
+                    stats.inc(d, "with_an_update_through_a_path:" + how)
     stats.inc(stats.depth, depth)
     stats.max_depth = max(stats.max_depth, depth)
     if run.ans and " dead=1" in run.ans[-1]:
@@ -657,25 +846,12 @@ def minimise(cons, hist, sig, Nh, Fh, budget=400):
 # ------------------------------------------------------------------------------------------------
 # reporting
 # ------------------------------------------------------------------------------------------------
-def pending():
-    if not os.path.exists(PENDING):
-        return {}
-    try:
-        return {e["signature"]: e.get("what", "") for e in json.load(open(PENDING))}
-    except Exception:
-        return {}
-
-
 def report(ctx, sig, payload, no_input=False, reported=None):
+    """Every problem goes to ctx.violation under its own signature (ctx.violation consults known_findings.json)."""
     if reported is not None:
         if sig in reported:
             return
         reported.add(sig)
-    pend = pending()
-    if sig in pend:
-        print("KNOWN-FINDING: property=%s (repair pending in notes/fixes) %s: %s" % (ctx.prop, sig, pend[sig]), flush=True)
-        ctx.cov.setdefault("pending_findings_hit", []).append(sig)
-        return
     ctx.violation(sig, payload, no_input=no_input)
 
 
@@ -707,7 +883,7 @@ def report_problem(ctx, p, run, Nh, Fh, reported, minimise_it=True):
         return
     cons, hist = run.cons, run.hist[:p["at"] + 1]
     mp = None
-    if minimise_it and not p.get("corr") and sig not in pending():
+    if minimise_it and not p.get("corr") and not ctx.known(sig):
         try:
             cons, hist, mp = minimise(cons, hist, sig, Nh, Fh)
         except Exception as e:   # minimisation is best effort
@@ -717,6 +893,7 @@ def report_problem(ctx, p, run, Nh, Fh, reported, minimise_it=True):
     path = save_script(cons, hist, name)
     payload = {
         "kind": "history-dependence" if "history-dependence" in sig else "undo-does-not-restore",
+        "what": q.get("mode", "direct"),
         "origin": run.origin, "signature_detail": sig, "comparison": q.get("mode", "direct"),
         "construction": cons, "history": hist, "minimised": mp is not None, "original_history_length": p["at"] + 1,
         "differences (item, expected = fresh network / state before the assume, got = network after the history)":
@@ -786,14 +963,14 @@ def run(ctx):
         return
     if not oexe:
         ctx.violation("build:oracle_sat", {"kind": "oracle-build-failed", "log": olog[-3000:]}, no_input=True)
-    Nh, Fh = Harness(hexe), Harness(hexe)
+    Nh, Fh, Ch = Harness(hexe), Harness(hexe), Harness(hexe)
     stats = Stats()
     reported = set()
     rup_stats = dict(checked=0, failed=0)
     pend_runs = []
 
     def crash(cons, hist, e, origin):
-        script = (cons + ["obs"] + [x for c in hist for x in (c, "obs")])[:e.done + 1]
+        script = script_lines(cons, hist)[:e.done + 1]
         path = save_script(cons, hist, "C08-crash-%s.txt" % vlib.sha("\n".join(cons + hist)))
         report(ctx, "net:hang" if e.hung else "net:crash", {
             "kind": "harness-hung" if e.hung else "harness-aborted", "origin": origin, "exit_code": e.rc,
@@ -802,7 +979,7 @@ def run(ctx):
 
     def process(run, sample):
         account(run, stats)
-        probs = analyse(run, Fh, stats, rng=rng, sample=sample)
+        probs = analyse(run, Fh, stats, rng=rng, sample=sample, C=Ch)
         for p in probs:
             report_problem(ctx, p, run, Nh, Fh, reported)
         pend_runs.append(run)
@@ -830,26 +1007,40 @@ def run(ctx):
     profiles = {}
     t0 = time.time()
     ncase = 0
+    # the first cases of every run are SCENARIO cases: a small network with a gadget of one theory, the history starts with the
+    # scenario [d0] d [x] + one way of undoing d's level (see net_gen): 4 theories x 4 endings x n_scen
+    n_scen = int(os.environ.get("C08_SCENARIOS", "6" if ctx.thorough else "3"))
+    scen = [(th, e) for _ in range(n_scen) for th in ("lra", "idl", "rdl", "ov") for e in ("pop", "next", "conflict", "tconflict")]
     while time.time() - t0 < budget and ncase < max_cases:
         ncase += 1
         Nh.start()      # one process per case (and a new one for the fresh networks): a case is a function of its script
         Fh.start()
         small = rng.random() < 0.25
         unsteered = 0.0 if rng.random() < 0.5 else rng.choice([0.03, 0.06, 0.12])
+        forced = scen[ncase - 1] if ncase <= len(scen) else None
         try:
-            net = net_gen.build(rng, Nh, small=small)
+            if forced:
+                net = net_gen.build(rng, Nh, small=True, gadget_ths=[forced[0]])
+            else:
+                net = net_gen.build(rng, Nh, small=small)
             obs0 = Nh.send("obs")
+            kinds = Nh.send("kinds")
+            mus = []
             if net.dead:
                 prof, hist, ans, obs = "dead-at-construction", [], [], []
+            elif forced:
+                prof, hist, ans, obs, mus = net_gen.history(rng, Nh, net, unsteered=0.0, target_ops=rng.randint(12, 40),
+                                                            first=[(0, forced[1]), (0, rng.choice(net_gen.ENDINGS))])
+                prof = "scenario:%s:%s" % forced
             else:
-                prof, hist, ans, obs = net_gen.history(rng, Nh, net, unsteered=unsteered)
+                prof, hist, ans, obs, mus = net_gen.history(rng, Nh, net, unsteered=unsteered)
         except EOFError:
             sent = [c for c in Nh.last_sent if c != "obs"]
             ctx.log("harness died during generation (case %d) on: %s" % (ncase, sent[-1] if sent else "?"))
             crash(sent, [], Crash(len(sent) - 1, Nh.last_rc, Nh.last_hung), "generated:%d" % ncase)
             continue
         profiles[prof] = profiles.get(prof, 0) + 1
-        r = Run(net.cons, hist, net.answers, obs0, ans, obs, origin="generated:%d:%s" % (ncase, prof))
+        r = Run(net.cons, hist, net.answers, obs0, kinds, ans, obs, mus, origin="generated:%d:%s" % (ncase, prof))
         try:
             process(r, sample)
         except EOFError:
@@ -862,6 +1053,19 @@ def run(ctx):
         check_rup(ctx, oexe, pend_runs, reported, rup_stats)
     Nh.close()
     Fh.close()
+    Ch.close()
+    # the scenarios must have been exercised: for every theory, a level in which one bound / cell / domain was updated at least
+    # twice has been undone by pop, by next() and by a backjump, and at least once the first update was on top of an older finite value
+    for th in ("lra", "idl", "rdl", "ov"):
+        d = stats.multi.get(th, {})
+        missing = [k for k in ("pop", "next", "backjump") if not d.get(k)]
+        if not any(d.get("over_an_older_finite_value:" + k) for k in ("pop", "next", "backjump")):
+            missing.append("over_an_older_finite_value")
+        if missing:
+            ctx.violation("c08:coverage-hole:%s:%s" % (th, ",".join(missing)),
+                          {"kind": "generator-did-not-exercise", "theory": th, "missing": missing, "counts": d}, no_input=True)
+    if stats.mu_void:
+        ctx.log("mu statistic void (chk=0) at %d undone levels" % stats.mu_void)
     # 5. evidence ------------------------------------------------------------------------------------------
     cov["evaluations"] = stats.points + stats.direct_pop + stats.direct_nohook + rup_stats["checked"] + stats.lemmas_checked
     cov["comparison_points"] = dict(evaluated=stats.points, exact=stats.exact, one_sided=stats.onesided, agreed=stats.agreed,
@@ -872,7 +1076,15 @@ def run(ctx):
     cov["rup"] = rup_stats
     cov["theory_clauses_validated_on_pristine_network"] = dict(checked=stats.lemmas_checked, pristine_network_dead=stats.lemmas_pristine_dead)
     cov["comparison_points"]["one_sided_with_a_decision_already_propagated_in_fresh"] = stats.levels_merged
-    cov["comparison_points"]["raw_rdl_infinity_differences"] = stats.inf_eps
+    cov["known_finding_lra_basis"] = dict(stats.basis, rule=(
+        "points where the fresh network has literals the network leaves Undefined: accepted as the known finding only when every such "
+        "difference is reproduced by assuming, in a copy of the network, the extra LRA relation literals that the fresh network derived "
+        "by valid LRA-only lemmas (explained); everything else is a violation (unexplained)"))
+    cov["levels_undone_after_2plus_updates_of_one_bound_cell_or_domain"] = dict(
+        stats.multi, statistic_void=stats.mu_void,
+        rule="per theory: standing levels in which ONE LRA bound / IDL cell / RDL cell / OV domain was tightened >= 2 times (harness command mu: "
+             "exact replay of the level's theory literals), by how the level was then undone (explicit pop, next(), backjump after a "
+             "conflict); over_an_older_finite_value = the first of these updates overwrote a finite value written at a lower level")
     cov["comparison_points"]["one_sided_where_fresh_has_more_literals_assigned"] = stats.fresh_knows_more
     cov["distinct_nontrivial"] = stats.nontrivial
     cov["traces_validated_against_impl"] = stats.agreed
@@ -886,9 +1098,6 @@ def run(ctx):
                                      conflicts_learnt_kind0=stats.hooks.get(0, 0), next_nogoods_kind1=stats.hooks.get(1, 0),
                                      theory_lemmas_kind2=stats.hooks.get(2, 0), theory_conflicts_kind3=stats.hooks.get(3, 0),
                                      clauses_kind4=stats.hooks.get(4, 0), explicit_pops_and_nexts=stats.pops,
-                                     pops_undoing_2plus_updates_of_one_lra_bound=stats.multi_pops[0],
-                                     pops_undoing_2plus_updates_of_one_idl_cell=stats.multi_pops[1],
-                                     pops_undoing_2plus_updates_of_one_rdl_cell=stats.multi_pops[2],
                                      cases_ending_dead=stats.dead_cases)
     cov["impl_wall_s"] = round(time.time() - t_impl, 1)
     cov["trusted_base"] += [
@@ -916,14 +1125,15 @@ def replay(path):
     else:
         cons, hist = load_script(path)
     hexe, hlog, oexe, olog = build()
-    Nh, Fh = Harness(hexe), Harness(hexe)
+    Nh, Fh, Ch = Harness(hexe), Harness(hexe), Harness(hexe)
     st = Stats()
     try:
         r = run_case(Nh, cons, hist, origin="replay")
     except Crash as e:
         print("VIOLATION property=C08 replay=%s harness %s (rc=%s) after %d lines" % (path, "hung" if e.hung else "died", e.rc, e.done))
         return 1
-    probs = analyse(r, Fh, st)
+    probs = analyse(r, Fh, st, C=Ch)
+    account(r, st)
     for c, a in zip(r.hist, r.ans):
         print("%-24s %s" % (c, a))
     bad = 0
@@ -939,9 +1149,15 @@ def replay(path):
             if idx >= len(out) or out[idx] != "ok":
                 bad += 1
                 print("PROBLEM net:learnt-not-rup clause %s after history command %d" % (clause, at))
-    print("points=%d agreed=%d incomparable=%s direct=%d" % (st.points, st.agreed, st.incomparable, st.direct_pop + st.direct_nohook))
+    print("points=%d agreed=%d incomparable=%s direct=%d multi-updates undone=%s lra-basis=%s" % (
+        st.points, st.agreed, st.incomparable, st.direct_pop + st.direct_nohook, st.multi, {k: v for k, v in st.basis.items() if v}))
+    known = [p for p in probs if p["sig"] == LRA_BASIS_SIG]
+    bad -= len(known)
+    if known:
+        print("(the %s problem is the known finding)" % LRA_BASIS_SIG)
     if bad:
         print("VIOLATION property=C08 replay=%s" % path)
     Nh.close()
     Fh.close()
+    Ch.close()
     return 1 if bad else 0
